@@ -63,6 +63,9 @@ struct Conv {
     b: usize, // bytes target -> local
     chunk: usize,
     pause_every: usize,
+    /// SOCKS entries: the client does not wait for the proxy's replies - greeting, request and the first bytes of the
+    /// conversation go out in one write (an optimistic / pipelining client)
+    optimistic: bool,
 }
 
 /// What the target observed for one conversation.
@@ -272,11 +275,13 @@ async fn enter(env: &Env, c: &Conv) -> Result<Box<dyn Duplex>, String> {
         }
         Entry::Socks5V4 | Entry::Socks5V6 | Entry::Socks5Domain => {
             let mut s = TcpStream::connect(("127.0.0.1", env.socks_port)).await.map_err(|x| e("connect socks", x))?;
-            s.write_all(&[5, 1, 0]).await.map_err(|x| e("socks5 greeting", x))?;
-            let mut m = [0u8; 2];
-            s.read_exact(&mut m).await.map_err(|x| e("socks5 method", x))?;
-            if m != [5, 0] {
-                return Err(format!("socks5 method reply {m:?}"));
+            if !c.optimistic {
+                s.write_all(&[5, 1, 0]).await.map_err(|x| e("socks5 greeting", x))?;
+                let mut m = [0u8; 2];
+                s.read_exact(&mut m).await.map_err(|x| e("socks5 method", x))?;
+                if m != [5, 0] {
+                    return Err(format!("socks5 method reply {m:?}"));
+                }
             }
             let mut req = vec![5u8, 1, 0];
             match c.entry {
@@ -291,7 +296,20 @@ async fn enter(env: &Env, c: &Conv) -> Result<Box<dyn Duplex>, String> {
                 }
             }
             req.extend(tport.to_be_bytes());
-            s.write_all(&req).await.map_err(|x| e("socks5 request", x))?;
+            if c.optimistic {
+                // greeting + request + the conversation's first 8 bytes (its id) in one write, replies read afterwards
+                let mut all = vec![5u8, 1, 0];
+                all.extend_from_slice(&req);
+                all.extend_from_slice(&c.id.to_be_bytes());
+                s.write_all(&all).await.map_err(|x| e("socks5 pipelined handshake", x))?;
+                let mut m = [0u8; 2];
+                s.read_exact(&mut m).await.map_err(|x| e("socks5 method", x))?;
+                if m != [5, 0] {
+                    return Err(format!("socks5 method reply {m:?}"));
+                }
+            } else {
+                s.write_all(&req).await.map_err(|x| e("socks5 request", x))?;
+            }
             let mut rep = [0u8; 10];
             s.read_exact(&mut rep).await.map_err(|x| e("socks5 reply", x))?;
             if rep[0] != 5 || rep[1] != 0 || rep[2] != 0 || rep[3] != 1 {
@@ -345,7 +363,9 @@ async fn local_side(env: Arc<Env>, seed: u64, c: Conv) -> LocalObs {
     };
     o.entered = true;
     let (kl, kt) = (key_l(seed, c.id), key_t(seed, c.id));
-    let idb = c.id.to_be_bytes();
+    // (an optimistic SOCKS client has sent the id already, together with its handshake)
+    let idb_full = c.id.to_be_bytes();
+    let idb: &[u8] = if c.optimistic { &[] } else { &idb_full };
     let finish = |o: &mut LocalObs, r: (usize, Option<usize>, bool, Option<String>)| {
         o.got = r.0;
         o.bad_at = r.1;
@@ -354,7 +374,7 @@ async fn local_side(env: Arc<Env>, seed: u64, c: Conv) -> LocalObs {
     };
     match c.kind {
         Kind::RequestResponse | Kind::TargetClosesAtOnce | Kind::TargetRefuses | Kind::TargetAborts => {
-            if let Err(e) = s.write_all(&idb).await {
+            if let Err(e) = s.write_all(idb).await {
                 o.write_err = Some(e.kind().to_string());
             }
             if o.write_err.is_none() {
@@ -370,7 +390,7 @@ async fn local_side(env: Arc<Env>, seed: u64, c: Conv) -> LocalObs {
         }
         Kind::TargetFirstHalfClose => {
             // the id must reach the target first so that it knows its script
-            s.write_all(&idb).await.ok();
+            s.write_all(idb).await.ok();
             let r = recv_all(&mut s, kt).await;
             finish(&mut o, r);
             // the opposite direction still works after the target's half-close
@@ -382,7 +402,7 @@ async fn local_side(env: Arc<Env>, seed: u64, c: Conv) -> LocalObs {
             tokio::time::sleep(Duration::from_millis(30)).await;
         }
         Kind::LocalHalfCloseThenClose | Kind::LocalClosesWhileTargetStreams | Kind::LocalHalfCloseStallThenClose => {
-            s.write_all(&idb).await.ok();
+            s.write_all(idb).await.ok();
             if let Err(e) = send_chunks(&mut s, kl, c.a, c.chunk, c.pause_every).await {
                 o.write_err = Some(e.kind().to_string());
             }
@@ -416,7 +436,7 @@ async fn local_side(env: Arc<Env>, seed: u64, c: Conv) -> LocalObs {
             drop(s);
         }
         Kind::Simultaneous => {
-            s.write_all(&idb).await.ok();
+            s.write_all(idb).await.ok();
             let (mut r, mut w) = tokio::io::split(s);
             let send = async {
                 let res = send_chunks(&mut w, kl, c.a, c.chunk, c.pause_every).await;
@@ -777,7 +797,7 @@ async fn run_once(seed: u64, convs: Vec<Conv>, udp_clients: Vec<(u64, bool, usiz
     let mut cl = tokio::spawn(client::client_main_inner(args, hr, scrx, dgrx));
     // wait until the tunnel works: a tiny warm-up conversation
     let mut ready = false;
-    let warm = Conv { id: 0xAAAA_0000 + seed % 1000, entry: Entry::Fixed, kind: Kind::RequestResponse, a: 10, b: 10, chunk: 10, pause_every: 0 };
+    let warm = Conv { id: 0xAAAA_0000 + seed % 1000, entry: Entry::Fixed, kind: Kind::RequestResponse, a: 10, b: 10, chunk: 10, pause_every: 0, optimistic: false };
     targets.plans.lock().unwrap().insert(warm.id, warm.clone());
     for _ in 0..50 {
         if cl.is_finished() {
@@ -871,7 +891,8 @@ fn gen_convs(rng: &mut Rng64, n: usize, big: usize, base_id: u64) -> Vec<Conv> {
         if pause_every > 0 {
             chunk = chunk.max(most / (pause_every * 1500) + 1);
         }
-        Conv { id: base_id + i as u64, entry, kind, a, b, chunk, pause_every }
+        let optimistic = matches!(entry, Entry::Socks5V4 | Entry::Socks5V6 | Entry::Socks5Domain) && rng.chance(1, 3);
+        Conv { id: base_id + i as u64, entry, kind, a, b, chunk, pause_every, optimistic }
     }).collect()
 }
 
